@@ -79,6 +79,15 @@ check("C13", "exploration",
       "deterministic simulation: seeded interleaving search at overlay-instrumented lock points, deadlock detection, porcupine linearizability of the recorded history, quiescent-state invariants",
       "§7 C13")
 
+check("C14", "exploration",
+      "Seeded deterministic simulation of the real package manager reconciler and PackageRevisioner (Provider packages) on the simulated API server and a simulated registry whose tags move. "
+      "Users edit source (other tags, digests, rollbacks), history limit (0-2), activation and pull policy at arbitrary points, also between two reconciles and in the middle of one; a stub flips revision health; every API and registry call is a fault/crash point. "
+      "After every step: at most one revision of a package is Active. At every committed revision delete by the manager: allowed by some revisionHistoryLimit value the reconcile could have read (never 0, only above limit+1), and - judged once the reconcile ended - not the revision of the digest the registry served to it, and the lowest numbered of the others. "
+      "After every undisturbed successful reconcile: status.currentRevision exists, carries the package's source, has the strictly highest number and is Active unless activation is Manual; one image digest always maps to one revision name and vice versa.",
+      TB + " Only Provider packages are driven (the reconciler is shared by all package types). The revision controller is a stub.",
+      "deterministic simulation with fault injection: seeded schedule/fault/crash search, invariants per step, per committed delete and per finished reconcile",
+      "§7 C14")
+
 def main():
     props = [json.loads(l)["id"] for l in open(os.path.join(V, "properties.jsonl"))]
     na = []
